@@ -44,6 +44,11 @@ def run_one(cfg, chooser, max_steps=8000):
         ip = '127.0.1.%d' % (h + 1)
         table[name] = ip
         net.add_peer(ip, 80, SilentPeer())
+        if cfg.get('dual_stack') and h == 0:
+            # the first host resolves to an IPv4 and an IPv6 address: connects race (happy eyeballs)
+            ip6 = 'fd00::%d' % (h + 1)
+            table[name] = [ip, ip6]
+            net.add_peer(ip6, 80, SilentPeer())
     pool = ConnectionPool(max_host_count=M, resolver=netsim.StaticResolver(table),
                           max_count=cfg.get('max_count', 100))
 
@@ -282,7 +287,7 @@ def gen_cfg(rng, small):
     if not small and rng.random() < 0.2:
         faults.append(['cancel', rng.randrange(n)])
     return {'clients': clients, 'hosts': hosts, 'limit': limit, 'faults': faults,
-            'max_count': rng.choice([100, 100, 1])}
+            'max_count': rng.choice([100, 100, 1]), 'dual_stack': rng.random() < 0.25}
 
 
 def directed():
@@ -295,6 +300,10 @@ def directed():
             out.append(base)
             out.append(dict(base, faults=[['cancel', len(kinds) - 1]]))
             out.append(dict(base, faults=[['connfail']]))
+    out.append({'clients': [{'kind': 'plain', 'host': 0, 'connect': True}, {'kind': 'nowait', 'host': 0, 'connect': True}],
+                'hosts': 1, 'limit': 1, 'faults': [['connfail']], 'dual_stack': True})
+    out.append({'clients': [{'kind': 'base_session', 'host': 0, 'connect': True}, {'kind': 'plain', 'host': 0, 'connect': True}],
+                'hosts': 1, 'limit': 2, 'faults': [['cancel', 0]], 'dual_stack': True})
     out.append({'clients': [{'kind': 'plain', 'host': 0, 'connect': True}, {'kind': 'plain', 'host': 1, 'connect': True},
                             {'kind': 'plain', 'host': 0, 'connect': False}], 'hosts': 2, 'limit': 1,
                 'faults': [['peerclose']]})
@@ -350,6 +359,8 @@ def worker(job):
         part.count('cancellations_delivered', obs.get('stats', {}).get('cancels', 0))
         part.count('cancellations_while_waiting_in_acquire', obs.get('stats', {}).get('cancel_while_waiting', 0))
         part.count('faults_' + fault_class(cfg))
+        if cfg.get('dual_stack'):
+            part.count('dual_stack_runs')
         if n % 97 == 0:
             part.sample({'cfg': cfg, 'trace': obs.get('trace', [])[:30], 'outcome': obs.get('outcome')})
     part.count('distinct_schedules', len(schedules))
